@@ -221,8 +221,8 @@ def check_panic_sites(rep, fl, rule="R20.2"):
         elif kind == "assert:overflow" and str(t.get("op", "")).startswith("Sub") and _unsigned_operand(b, t):
             # an unsigned subtraction: panics in overflow-checked builds and wraps to a huge value otherwise
             # (a never-reached threshold, an out-of-range index): it has to be shown not to underflow
-            av = norm(b.operand_expr(t["a"], True))
-            bv = norm(b.operand_expr(t["b"], True))
+            av = resolve_payloads(b, b.operand_expr(t["a"], True))   # (a value that came back through `helper(..)?`)
+            bv = resolve_payloads(b, b.operand_expr(t["b"], True))
             desc = "%s - %s" % (show(av), show(bv))
             kind = "sub"
             am = interval_min(b, av, facts)
@@ -326,6 +326,8 @@ def check_panic_sites(rep, fl, rule="R20.2"):
         elif kind == "std-op":
             desc = "%s(%s)" % (short(b.callee_of(t)), ", ".join(show(norm(x)) for x in b.call_args(t)))
             desc = desc[:160]
+            if callee_matches(b.callee_of(t), "Vec::drain") and len(t["args"]) == 2 and "RangeFull" in ((t.get("argtys") or ["", ""])[1]):
+                cls = "drain(..) over the full range: no bound to violate"
             if callee_matches(b.callee_of(t), "Sub::sub") or (" as std::ops::Sub>::sub" in b.callee_of(t)):
                 # `x - y` on a type whose subtraction panics on underflow (Duration, Instant): every path to it
                 # has compared the same two operands and knows x >= y
